@@ -23,10 +23,11 @@ EncodeOK ==
   /\ Ev.err = "" /\ Ev.rows = Len(vals)
   /\ D.ok /\ D.p = Len(Ev.bytes) /\ D.v.rows = Len(vals) /\ D.v.cols[1].vals = vals
 TEncode == Line("Encode") /\ (dirty \/ EncodeOK) /\ UNCHANGED <<vals, dirty, ast, rev>>
+\* a block decoded into the column through Results.DecodeResult, which empties its targets first: the column then holds
+\* the rows of that block - none, for a block of zero rows - whatever it held before (also after a failed decode)
 TDecodeOK == /\ Line("DecodeOK")
-             /\ IF dirty THEN UNCHANGED vals
-                ELSE vals = <<>> /\ Ev.err = "" /\ Ev.read = Ev.data /\ Ev.rows = Len(Ev.data) /\ vals' = Ev.data
-             /\ UNCHANGED <<dirty, ast, rev>>
+             /\ Ev.err = "" /\ Ev.read = Ev.data /\ Ev.rows = Len(Ev.data) /\ vals' = Ev.data /\ dirty' = FALSE
+             /\ UNCHANGED <<ast, rev>>
 TDecodeFail == Line("DecodeFail") /\ Ev.err # "" /\ dirty' = TRUE /\ UNCHANGED <<vals, ast, rev>>
 Next == TBegin \/ TAppend \/ TAppendMany \/ TInfer \/ TReset \/ TPrepare \/ TEncode \/ TDecodeOK \/ TDecodeFail
 TSpec == Init /\ [][Next]_tvars
